@@ -7,7 +7,7 @@ from . import core
 CHECKS = {
     "C13": dict(
         technique="runtime monitoring: exhaustive operator/value matrix executed through run_checks, judged by a Python reference oracle",
-        text="Every ordered pair of a 46-value universe x 5 comparison operators x both polarities x {query RHS, literal RHS, literal-bound variable as LHS}, random operands beyond the universe (random 64-bit integers and neighbours, random-bit-pattern doubles, unicode strings), the in-list (incl. a literal on the left and a document list on the right - as a list value, as its elements, through a query-bound variable, under `some`), "
+        text="Every ordered pair of a 54-value universe (incl. strings that spell integers) x 5 comparison operators x both polarities x {query RHS, literal RHS, literal-bound variable as LHS}, random operands beyond the universe (random 64-bit integers and neighbours, random-bit-pattern doubles, unicode strings), the in-list (incl. a literal on the left and a document list on the right - as a list value, as its elements, through a query-bound variable, under `some`), "
              "range-bracket and regex forms (pattern literal, pattern in a variable on the right and on the left) are executed against the real evaluator and each verdict is compared with Python "
              "semantics on the model values. Exhaustive on that finite universe; says nothing outside it.",
         note="Trusts: Python int/float/str comparison and re.search as the reference; json round trip of the universe. "
@@ -41,7 +41,7 @@ CHECKS["C04"] = dict(
     technique="runtime monitoring: metamorphic order/repetition monitor with hook-observed memoisation histories",
     text="Random base programs that share variables and named references (30% with an alternative, `when`-guarded definition of a rule name) are evaluated together with up to ~25 order/repetition "
          "transforms each (all permutations of small rule bodies and rule orders, shuffled alternatives, duplicated lines, alternatives "
-         "and rules, early/late references, cyclic rule references under every rule order, nested parameterised calls reached twice with different arguments in either line order, a map with case-variant spellings of its keys addressed in a third spelling under 26 rule orders and all line orders, inserted filter lines that select nothing and therefore skip) on 2-3 documents; rule->status maps must agree. The verif-hooks event stream shows "
+         "and rules, early/late references, cyclic rule references under every rule order, several type blocks of one type (the first skipping) under line and rule permutations, nested parameterised calls reached twice with different arguments in either line order, a map with case-variant spellings of its keys addressed in a third spelling under 26 rule orders and all line orders, inserted filter lines that select nothing and therefore skip) on 2-3 documents; rule->status maps must agree. The verif-hooks event stream shows "
          "how many distinct variable-resolution orders and rule-status hit/miss patterns were actually exercised.",
     note="Groups where any variant errors are inconclusive (the property's proviso). Trusts the printer/parser round trip of the generated AST.",
     ref="DESIGN.md §6 P-C04")
@@ -94,7 +94,7 @@ CHECKS["C09"] = dict(
          "structured report (library and `validate --structured -o json`) is checked against the verbose record tree of the same "
          "evaluation: each rule in exactly the partition its status dictates, file-status rule, batch report over 1-3 rules files (distinct names or one base name in different directories) == union of "
          "single reports, every reported leaf check attributable (by message) to a FAIL value check in that rule's own subtree; records and report entries of "
-         "parameterised calls (incl. nested and message-less ones) must carry exactly the message written at that call in the rules text; every listed `in` / ordering comparison must fail on the very values it prints (query-vs-query clauses with partial matches included), every listed unary check must fail on the value it prints (clause found through its unique message).",
+         "parameterised calls (incl. nested and message-less ones) must carry exactly the message written at that call in the rules text; every listed `in` / ordering comparison must fail on the very values it prints (query-vs-query clauses with partial matches included), every listed unary check must fail on the value it prints (clause found through its unique message); a block over an empty selection inside a failing rule must not be listed.",
     note="The verbose tree is the ground truth (its own consistency is C02). Reported leaves are matched by custom message; leaves without a message match any FAIL record of the rule.",
     ref="DESIGN.md §6 P-C09")
 
@@ -105,14 +105,14 @@ CHECKS["C07"] = dict(
          "function in verbose and report mode, incl. reports > 8 KiB) are parsed back by independent parsers (python json, PyYAML, xml.etree, "
          "regex) and must agree on rule->status, file status and exit code; YAML==JSON as data, SARIF result count == failing checks, JUnit marks/counters. Groups of 2-3 rules files (distinct names, or one base name in different directories) x 1-3 data files, half of them with an "
          "--input-parameters document, go through 13 configurations (files, payload; plain, structured) and must agree on the exit code and the per-pair verdicts; "
-         "a quarter of the programs define one rule name twice with different outcomes; documents and custom messages carry markup-significant characters (<, &, quotes); an evaluation that ends in an error must end with the same exit code in 8 configurations; in multi-file JUnit output every testsuite's failures=/errors= must count its own cases and agree with that data file's structured status.",
+         "a third of the rules-file groups contain a placeholder file without rules; a quarter of the programs define one rule name twice with different outcomes; documents and custom messages carry markup-significant characters (<, &, quotes); an evaluation that ends in an error must end with the same exit code in 8 configurations; in multi-file JUnit output every testsuite's failures=/errors= must count its own cases and agree with that data file's structured status.",
     note="Console reporters show only what -S selects: containment there, equality for -S all. The Lambda handler itself cannot be linked; it is covered via run_checks with its argument pattern.",
     ref="DESIGN.md §6 P-C07")
 
 CHECKS["C12"] = dict(
     technique="runtime monitoring: batch-vs-singleton differential monitor with hook-observed scope lifetimes",
     text="Batches of 1-3 rules files that share variable and rule names with different definitions x 2-4 documents differing exactly in the "
-         "queried keys are validated as explicit files in several orders (plain and structured), as directories with -a and -m (explicit mtimes), "
+         "queried keys are validated as explicit files in several orders (plain and structured), as directories with -a and -m (explicit mtimes, 30% identical), "
          "as payload lists (half of the batches with an --input-parameters document read by every rules file), as structured junit and sarif batches (per-data-file testsuite / result units vs the stand-alone run), with data files of one base name in different directories, and as multi-case `test` files; 30% alternate documents with one and with three competing spellings of a key (stand-alone pairs in fresh processes), 40% of the batches contain an empty / blank rules file (listed anywhere, walked first), 30% make 24-40 parameterised-rule calls per pair (per-call bookkeeping must start afresh), a pair that only fails after other evaluations in the same process is a violation; every (rules, data) pair's report must equal the report of the pair validated alone and "
          "the exit status must be the maximum over the pairs (40% of the batches end with a rules file every document satisfies). verif-hooks events assert one root scope per pair and no memo hit before a miss in a scope.",
     note="Reports are compared after removing file names and line/column details. In structured mode compliant/not_applicable are name sets by design.",
@@ -124,7 +124,7 @@ CHECKS["C16"] = dict(
          "expectation are run through `test` in plain/json/yaml/junit rendering and files/--dir layout (tests files under every extension the directory walk accepts, -a/-m ordering); each (case, rule) outcome (met / unmet / no "
          "expectation), the evaluated statuses of unmet expectations and the exit code 0/7 must follow from the statuses `validate --print-json` "
          "assigns to that rule on the same input, and all renderings must carry the same relation; half of the runs have a second test-data file (-t <dir> / --dir); a template written with 14 short-form tags is used as test input with "
-         "expectations equal to validate's statuses (all met, exit 0) and with one deliberately wrong (exit 7); expectation files written with JSON escapes (incl. surrogate pairs) must name the same rules as the plain spelling; every JUnit failures=/errors= attribute must equal the number of <failure>/<error> elements below it.",
+         "expectations equal to validate's statuses (all met, exit 0) and with one deliberately wrong (exit 7); expectation files written with JSON escapes (incl. surrogate pairs) must name the same rules as the plain spelling; two test cases of one name (and unnamed ones) are all reported and counted; every JUnit failures=/errors= attribute must equal the number of <failure>/<error> elements below it.",
     note="validate's print-json record is the reference for per-definition statuses. Output order is C05's concern, relations are compared as sets.",
     ref="DESIGN.md §6 P-C16")
 
@@ -132,7 +132,7 @@ CHECKS["C17"] = dict(
     technique="runtime monitoring: differential monitor against the pre-merged document, over all -i orders and modes",
     text="Documents are split at random into data + 1-3 parameter files (JSON/YAML, differing sizes; flat names, the same base name in different "
          "directories, or one directory given to -i, with stray non-data files in it; 30% of the parameter files are symbolic links, 60% of the lists carry an argument that contributes nothing); 35% of the rules files never spell a key (count / walk the merged root map); validating with -i in every order, in plain and "
-         "structured mode, with one or two data files and in payload mode must give the verdicts and exit class of validating the pre-merged document; "
+         "structured mode, with one or two data files, with the data on STDIN and in payload mode must give the verdicts and exit class of validating the pre-merged document; "
          "rules read keys by name and iterate the merged root map (`this.*`, `[ keys == | in | regex ]`); a deliberately overlapping key (param/param, "
          "data/param; scalar, list and map values, equal or different) must produce an error exit without a verdict - not a crash, not a silent choice - in both modes.",
     note="The reference is the same front end on the pre-merged document.",
@@ -141,7 +141,7 @@ CHECKS["C17"] = dict(
 CHECKS["C19"] = dict(
     technique="runtime monitoring: round-trip monitor (rulegen -> parse-tree -> validate on the source and on a mutated template)",
     text="Generated CloudFormation-shaped templates (1-5 resources over 1-3 types; plain and 17 classes of odd strings, ints incl. 2^53+1 and i64::MIN, floats (fraction / integral / exponent), bools, nested "
-         "lists/maps; repeated, re-typed (50 vs \"50\") and distinct values; uniform and non-uniform property sets, fleets of 7-19 resources with pairwise different values) are fed to `rulegen` as a real process (twice); unless an "
+         "lists/maps; repeated, re-typed (50 vs \"50\") and distinct values; uniform and non-uniform property sets, fleets of 7-19 resources with pairwise different values, a list-valued property next to a map / bool / null sibling) are fed to `rulegen` as a real process (twice); unless an "
          "error is reported the output must parse to exactly one rule per resource type with properties (type names incl. `-` and `@`), the --output file (absent, empty, longer, prefixed before) must equal stdout, every rule must PASS on the source "
          "template, and the rule of a type must FAIL after one scalar property value is changed to an unseen value; YAML templates written with 19 short-form tag spellings (scalar, sequence and mapping tags) must be refused or self-validate.",
     note="A rulegen crash is C08's concern (inconclusive here). Failing self-validations are attributed to value classes so that the two known findings stay narrow.",
@@ -151,7 +151,7 @@ CHECKS["C18"] = dict(
     technique="runtime monitoring: reference-model monitor (independent Python implementation of docs/FUNCTIONS.md) over observed function results",
     text="`let r = f(args)` is evaluated for every function x 23 argument queries (unicode, numeric strings, mixed-type lists, unresolved members first / in the middle / last / only, empty "
          "selections) x literal/query/variable/nested/file-level-let/call-argument forms, substring over 13x13 offsets (incl. -1, len, >=65536), join delimiters and empty members, "
-         "regex_replace full/partial/no match, 45 boolean/integer/float spellings and 21 integers (boundaries, values that wrap to a digit in 8/16/32 bits) through all converters one by one, parse_epoch on 16 RFC 3339 timestamps (offsets, fractions, pre-1970), random literals, and json round trips on random documents; the result list is read back through a failing "
+         "regex_replace full/partial/no match, 45 boolean/integer/float spellings and 21 integers (boundaries, values that wrap to a digit in 8/16/32 bits) through all converters one by one, parse_epoch on 16 RFC 3339 timestamps (offsets, fractions, pre-1970), random literals, json round trips on random documents, a source string parsed twice (as it is and rewritten) in one rule; the result list is read back through a failing "
          "clause on %r and compared, type-strictly and in order, with the reference; unparsable input must raise an error, never a value.",
     note="The reference abstains (UNSPEC, counted in evidence) where the documentation is silent; Python re / urllib / float parsing are trusted on the restricted inputs.",
     ref="DESIGN.md §6 P-C18")
@@ -159,7 +159,7 @@ CHECKS["C18"] = dict(
 CHECKS["C11"] = dict(
     technique="runtime monitoring: model-vs-loaded differential monitor over serialisations x loaders (hooked loader probes + verdict channels); Miri on the loader in the thorough tier",
     text="Generated documents (unicode, digits-only, empty, keyword-looking strings, i64 bounds, extreme and random-bit-pattern floats, block scalars) and an 18-document corpus of "
-         "placeholder-like shapes (single-key null maps next to lists, empty containers, hand-written long-form intrinsics) are written by a position-tracking "
+         "placeholder-like shapes (single-key null maps next to lists, empty containers, hand-written long-form intrinsics) plus three wide documents (hundreds of siblings) are written by a position-tracking "
          "emitter as JSON compact/pretty, YAML flow and YAML block with random quoting/indent/comments; the verif-hooks loader probes dump every loaded "
          "node for the validate (libyaml) and the test/library (serde) loader and are compared type-strictly, incl. key and list order, with the model; "
          "the document must equal its own Guard literal and pass per-path type probes through validate, --payload, run_checks and test; all 21 tags x "
@@ -182,7 +182,7 @@ CHECKS["C10"] = dict(
 CHECKS["C08"] = dict(
     technique="runtime monitoring: crash/hang watchdog monitor over mutation and adversarial-grammar workloads, an arithmetic-overflow-checked build of the same worker, plus valgrind memcheck on the unsafe YAML loader paths",
     text="Mutated rule texts (a quarter with a long non-ASCII tail after the likely syntax error), 41 adversarial but grammatical program shapes (filters after this/index/filter/keys, literal and function LHS, unary "
-         "operators on literals, mismatched/empty/unresolved function arguments, huge indices, self/mutual/when recursion, duplicate-name cycles, cyclic variable definitions, recursive parameterised rules, NaN/infinity operands, odd custom messages, quoted keys that look like other tokens (`\"% used\"`, `'%'`, `\"*\"`, `\"\"`), wrong arity, backtracking "
+         "operators on literals, mismatched/empty/unresolved function arguments, huge indices, self/mutual/when recursion, duplicate-name cycles, cyclic variable definitions, recursive parameterised rules, NaN/infinity operands, odd custom messages, filters whose members are `when` blocks / query blocks / calls, quoted keys that look like other tokens (`\"% used\"`, `'%'`, `\"*\"`, `\"\"`), wrong arity, backtracking "
          "regexes, multi-byte substrings ...), generated programs with all features on, and 24 hostile documents plus mutated ones (as data, parameter file, "
          "test spec, payload envelope), CloudFormation- and Terraform-plan-shaped documents (template-aware console views) and ~60 omitted/conflicting/unsupported argument combinations are run through validate (files, payload, structured, `.ruleset` files and mixed rules directories), test (one and several test files per run, directories), parse-tree, rulegen (real processes, non-UTF-8 files) and "
          "run_checks. The worker captures panics with file:line, the orchestrator attributes process deaths and watchdog expiries to the running job; rejected "
@@ -193,7 +193,7 @@ CHECKS["C08"] = dict(
 
 CHECKS["C01"] = dict(
     technique="runtime monitoring: reference-model monitor (independent interpreter of the documented semantics) over exhaustive and random programs",
-    text="Every single-clause program over 44 query shapes (4 with quoted digits-only keys, 14 of them map-key filters `[ keys == | != | in | not in .. ]` with string, regex, mixed-type list and non-string right-hand sides) x some/all x 9 unary and 6 binary operators x all polarity spellings x 14 literals and 4 right-hand queries (3 of them selecting nothing) x 3 documents "
+    text="Every single-clause program over 44 query shapes (4 with quoted digits-only keys, 14 of them map-key filters `[ keys == | != | in | not in .. ]` with string, regex, mixed-type list and non-string right-hand sides) x some/all x 9 unary and 6 binary operators x all polarity spellings x 14 literals and 4 right-hand queries (3 of them selecting nothing) x 3 documents (with -0.0 / 0.0 under one key) "
          "(~47k, exhaustive in both tiers) and random core-language programs (queries with * [*] [n] [filter] [keys filter], keys taken from variables, blocks, when guards, named references, let "
          "variables incl. `some` bindings, CNF, type blocks) on random documents are evaluated by the real evaluator and by gvlib/refint.py, a ~400-line "
          "interpreter written from the documentation with a different structure (result set -> truth values -> aggregation; no memo, no records); per-rule "
